@@ -177,8 +177,8 @@ CLAIMED = {
              "loses its content, cwd and root stay; copy of a regular file to a fresh path is exact (Memfs/CopyFile.v); copy of a directory tree "
              "without links to a fresh path in an existing directory, not following links, is proved on the reference tree (Memfs/CopyDir.v): "
              "every entry at j below the source has a copy at j below the destination with the source's kind, bytes and (requested or own) "
-             "mode, nothing else appears below the destination, everything outside it is as before (hypothesis: the names below the source are "
-             "proper path names, as every key produced by resolve is). Partial: sources containing links, copies into an existing directory and "
+             "mode, nothing else appears below the destination, everything outside it is as before (it needs the keys below the source to be "
+             "proper path names, proved an invariant of every call in Memfs/Names.v, so it holds in every reachable state). Partial: sources containing links, copies into an existing directory and "
              "copies that follow links are judged on the bounded enumeration, not proved.",
         note="Trusted: Coq kernel; tools/frames.py as the executable statement of the clauses; after a copy that follows links the state is "
              "compared up to HashSet order; extraction, driver, harness, differ.",
